@@ -514,6 +514,9 @@ func c17Decode(c *fw.Ctx, tg c17Target, in []byte, sub string) {
 }
 
 func c17Run(c *fw.Ctx) {
+	{
+		interfRun(c, "C17") // statement-level interleavings of operations on disjoint objects (subprocess)
+	}
 	targets := c17Targets()
 	idx := 0
 	maxDev := 2
